@@ -1196,6 +1196,7 @@ size_t r5, size_t r4, size_t r3, size_t r2, size_t r1, size_t *outSize,
 int errBoundMode, double absErr_Bound, double relBoundRatio)
 {
 	confparams_cpr->errorBoundMode = errBoundMode;
+	confparams_cpr->relBoundRatio = relBoundRatio; //serialized into the parameter block in the range-relative modes
 
 	if(errBoundMode>=PW_REL)
 	{
